@@ -385,6 +385,7 @@ pub fn property() -> Property {
     Property {
         id: "C16",
         subs: vec![sub::<LruDirect>(), sub::<BddDiff>(), sub::<SddCaches>()],
+        fuzz: vec![FuzzSpec { target: "tables", runs: 150000, max_len: 500 }],
         assumptions: vec![
             "per-key hashes are functions of the key (as every caller computes them)",
             "the lossy cache is allowed to forget; hits are counted so that a cache forgetting everything is visible in the evidence",
